@@ -19,6 +19,15 @@ def enc(o):
         return o
     if isinstance(o, (np.bool_,)):
         return {'__np__': 'bool', 'v': bool(o)}
+    if isinstance(o, np.generic):
+        # before the Python int/float/complex tests: numpy.float64 / complex128 subclass float / complex
+        if o.dtype.kind == 'c':
+            return {'__np__': str(o.dtype), 'v': [float(o.real), float(o.imag)]}
+        if o.dtype.kind == 'f':
+            return {'__np__': str(o.dtype), 'v': float(o)}
+        if o.dtype.kind in 'iu':
+            return {'__np__': str(o.dtype), 'v': int(o)}
+        raise TypeError('cannot encode numpy scalar %r' % o)
     if isinstance(o, int):
         return o
     if isinstance(o, float):
@@ -26,7 +35,7 @@ def enc(o):
     if isinstance(o, complex):
         return {'__complex__': [o.real, o.imag]}
     if isinstance(o, np.ndarray):
-        a = np.ascontiguousarray(o)
+        a = np.ascontiguousarray(o).reshape(o.shape)     # (ascontiguousarray turns 0-d into 1-d)
         if a.dtype.kind == 'c':
             flat = [[float(z.real), float(z.imag)] for z in a.ravel()]
         elif a.dtype.kind == 'f':
